@@ -372,7 +372,7 @@ def _run(scn, w, res):
             for (n, oc) in t["rx"]:
                 if oc == "stored" and n in by_name:
                     radios[by_name[n]].rx_fifo.clear()
-                    radios[by_name[n]].flags = 0
+                    radios[by_name[n]].flags &= ~0x40      # (the harness empties the RX FIFO: only RX_DR goes with it - a latched MAX_RT is the driver's to see)
         radios[s].rx_fifo.clear()
         nodes[s].update()
         w.air.trace.clear()
@@ -406,7 +406,7 @@ def _run(scn, w, res):
                         % (s, L, len(pk), len(got), sorted({netref.level(a) for a in got}), len(want)))
             for a in got:
                 radios[a].rx_fifo.clear()
-                radios[a].flags = 0
+                radios[a].flags &= ~0x40
     res.count("pairs_walked", walked)
     res.isig = hashlib.blake2b(repr((cfg, scn.get("all_from"), scn["pairs"][:3], len(scn["pairs"]), scn.get("pipes"))).encode(), digest_size=8).hexdigest()
     res.sample = {"cfg": cfg, "pairs": [[oct(a), oct(b)] for a, b in scn["pairs"][:5]], "n_pairs": len(scn["pairs"]), "pipes_clause": bool(scn.get("pipes"))}
